@@ -126,8 +126,8 @@ fn p_c19_values_bool_float() {
 /// an overflow
 pub fn c19_program() {
     let cap = any_upto(3);
-    let (a, b) = (any_i64(), any_i64());
-    let prog = vec![PushProgram::Instruction(PushInstruction::push_int(a)), PushProgram::Instruction(PushInstruction::push_int(b))];
+    // distinguishable elements: an instruction first, an (empty) block second
+    let prog = vec![PushProgram::Instruction(PushInstruction::push_int(7)), PushProgram::Block(Vec::new())];
     match PushState::builder().with_max_stack_size(cap).with_program(prog) {
         Err(e) => {
             check!(cap < 2 && matches!(e, StackError::Overflow { .. }), "a program longer than the exec maximum is reported as an overflow");
@@ -140,11 +140,12 @@ pub fn c19_program() {
             check!(ex.size() == 2, "the whole program is loaded");
             match ex.top2() {
                 Ok((first, second)) => {
-                    check!(*first == PushProgram::Instruction(PushInstruction::push_int(a)), "the first element of the supplied program is the first to execute");
-                    check!(*second == PushProgram::Instruction(PushInstruction::push_int(b)), "the second element of the supplied program executes second");
+                    check!(matches!(first, PushProgram::Instruction(_)), "the first element of the supplied program is the first to execute");
+                    check!(matches!(second, PushProgram::Block(_)), "the second element of the supplied program executes second");
                 }
                 Err(_) => check!(false, "the whole program is loaded"),
             }
+            check!(state.stack::<i64>().size() == 0 && state.stack::<bool>().size() == 0, "the data stacks are untouched");
             cover!(true, "program loaded");
             std::mem::forget(state);
         }
